@@ -3,7 +3,7 @@ import re
 from . import register
 from ..analysis import (direct_field, backslice, aggregates, agg_field, comparisons, branch_of, dominated_region, direct_def, base_named_local,
                         switch_on_result_of, return_variants_from)
-from ..facts import op_local, const_val
+from ..facts import op_local, const_val, rvalue_places, place_fields
 
 DOC = {
     'explanation': 'Decided: the cache key contains every field of the hashed chunk (offset, length, file identity) and the tree id contains everything else the hash depends on '
@@ -15,6 +15,7 @@ DOC = {
         'C12.R1': 'Key = {file_id, chunk_pos, chunk_len} covering all FileChunk fields; tree id formatted from algorithm and transform command; FileHasher::new_cached passes its own algorithm and transform.command_str',
         'C12.R2': 'HashCache::get: Some only if modified_timestamp_ms == current and file_len == current (equality tests, both guarding the hit)',
         'C12.R3': 'put and get compute the time stamp with the same conversion chain (modified -> duration_since(UNIX_EPOCH) -> as_millis), and the chain has no lossy step (fallback constant, clamp, saturation): different modification times give different stamps',
+        'C12.R7': 'renaming or moving a file affects speed only: a transform result that may depend on the path (no temporary copy: the program gets the path of the file itself) is not cached under the file identifier - hash_transformed passes no key to load_hash / store_hash unless Transform.copy',
         'C12.R6': 'the validation of an entry (same mtime, same length) is only sound if the mtime would change on a later write: HashCache::put does not store an entry while the file is younger than the resolution of its time stamp (a time stamp without a fractional part is taken as 1-2 s coarse) - the store is control-dependent on a comparison of now, the modification time and its sub-second part',
         'C12.R5': 'a cached hash is returned only for a file that can still be opened: on the hit path of hash_file / hash_transformed the file is opened (error propagated) before the cached value is returned - stat() needs no read permission, so without it an unreadable file is reported from the cache while the uncached run warns and leaves it out',
         'C12.R4': 'hash_file / hash_transformed: load_hash and store_hash use the same key and metadata; metadata is captured before hashing; store follows a successful hash and is the last fallible-free step (no Err return after it)',
@@ -34,6 +35,7 @@ def run(ctx):
     r4(ctx)
     r5(ctx)
     r6(ctx)
+    r7(ctx)
     from .common import run_mandatory
     run_mandatory(ctx, 'C12')
 
@@ -169,6 +171,45 @@ def r6(ctx):
               'put() stores an entry for a file whatever its age: on a file system that keeps whole seconds (ext3, ext4 with 128-byte inodes, HFS+, NFS; FAT: 2 s) a rewrite of the same length within the '
               'same second leaves mtime and length as they were recorded, get() takes the entry for valid and returns the hash of the OLD content - two different files are reported as duplicates '
               '(`group --cache` twice, with a same-length rewrite of one file ~100 ms after the first run) and `remove` deletes the only copy of one content')
+
+
+def r7(ctx):
+    """Entries are found by the file identifier: a result that depends on the PATH of the file must not be cached that way."""
+    rule = 'C12.R7'
+    lib = ctx.lib
+    b = ctx.need_body(rule, "hasher::FileHasher::<'_>::hash_transformed")
+    if b is None:
+        return
+    ld = b.calls(r'FileHasher::<.*>::load_hash$|FileHasher.*::load_hash$')
+    stc = b.calls(r'FileHasher::<.*>::store_hash$|FileHasher.*::store_hash$')
+    if not ctx.floor(rule, 'load_hash / store_hash in hash_transformed', min(len(ld), len(stc)), 1, b.where()):
+        return
+    def depends_on_copy(call):
+        # the key handed to the cache access is None unless `copy`: a filter whose closure reads Transform.copy, or a dominating test of it
+        for a in call.args[1:2]:
+            sl = backslice(b, [a])
+            for k in sl.calls:
+                if k.matches(r'Option::<T>::filter$|Option<.*>::filter$|bool::then$|bool::then_some$'):
+                    for a2 in k.args:
+                        l = op_local(a2)
+                        cp = lib.closure_of_type(b.local_ty(l)) if l is not None else None
+                        cb = lib.body(cp) if cp else None
+                        if cb is not None and any('copy' in place_fields(pl) for blk in cb.blocks for st in blk['stmts'] for pl in rvalue_places(st['rv'])):
+                            return True
+            if 'copy' in sl.field_names():
+                return True
+        for d in b.dominators()[call.bb]:
+            t = b.blocks[d]['term']
+            if t['k'] == 'switch':
+                df = direct_field(b, t['op'])
+                if df and df[0] == 'copy':
+                    return True
+        return False
+    ok = depends_on_copy(ld[0]) and all(depends_on_copy(c) for c in stc)
+    ctx.check(ok, rule, b.path + '|path-dependent-results-not-cached', ld[0].where(), 'without `copy` (the program gets the path of the file itself) the cache is neither consulted nor filled',
+              'hash_transformed looks up and stores the result by (device, inode, chunk) also when the transform runs without a temporary copy: the program is then given the path of the file itself, '
+              'its output may depend on that path (`dirname $IN`, `file $IN`, `md5sum $IN`, `exiftool $IN`), and after `mv` the entry is still valid (inode, mtime and length are unchanged): '
+              '`group --cache --no-copy --transform ..` serves the output computed for the old path')
 
 
 def r2(ctx):
